@@ -170,24 +170,39 @@ def _it(i: R) -> str:
     return s + (f" as {f['alias'].v}" if f["alias"].v else "")
 
 
+def _runtime_name_producers(repo: Repo) -> set:
+    """Modules the generated stub imports names from although no annotation mentions them: build_module_stubs is
+    interpreted on `def f(x: int) -> int` carrying one generated TypedDict class (fields of builtin types only); what its
+    import block then lists is what the generated runtime code (the class statements) needs."""
+    from . import anno_model as AM
+    from .render_model import attribute_stub, class_stub, fkind, inst, to_inst
+    from .sig_model import ST, param, sig
+    from .c11 import cls as _cls
+    INT = _cls("builtins", "int")
+    td = class_stub("FooTypedDict__RENAME_ME__(TypedDict)", [], [attribute_stub("a", INT)])
+    d = inst("FunctionDefinition", module=K("pkg.mod"), qualname=K("f"), kind=fkind("MODULE"), signature=sig([param("x", INT)], INT),
+             is_async=K(False), typed_dict_class_stubs=R("list", items=(td,)))
+    sc = AM.AnnoScenario(repo, ST, "build_module_stubs")
+    AM._install_importmap(sc)
+    k, res = sc.result({sc.fi.positional_params()[0]: K((d,))})
+    if k != "return" or not (isinstance(res, R) and res.kind == "dict"):
+        raise AnalysisError(f"R-C16.3: build_module_stubs on a definition with a generated class: {k} {str(res)[:80]}")
+    out = set()
+    for _m, ms in res.fields["items"]:
+        imp = to_inst(ms).fields["imports_stub"].fields["imports"]
+        for mk, _names in imp.fields["items"]:
+            if not (isinstance(mk, K) and isinstance(mk.v, str)):
+                raise AnalysisError(f"R-C16.3: import block key not determined: {mk}")
+            out.add(mk.v)
+    return out
+
+
+
 def rule_exempt(ctx: Ctx, repo: Repo) -> None:
     fi = repo.fn(TCI, "MoveImportsToTypeCheckingBlockVisitor._remove_typing_module")
     ctx.functions.add(fi.fq)
     # producer table: modules from which generated *runtime* code takes names (stubs.build_module_stubs)
-    bm = repo.fn("monkeytype.stubs", "build_module_stubs")
-    producers = set()
-    todo_p, seen_p = [bm], set()
-    while todo_p:  # build_module_stubs and the helpers of stubs.py it delegates to
-        f_p = todo_p.pop()
-        if f_p.fq in seen_p:
-            continue
-        seen_p.add(f_p.fq)
-        for c in calls_in(f_p.node):
-            if isinstance(c.func, ast.Attribute) and c.func.attr == "add" and isinstance(c.func.value, ast.Subscript) and isinstance(c.func.value.slice, ast.Constant):
-                producers.add(c.func.value.slice.value)
-            callee_p = repo.resolve_callee(f_p, c)
-            if callee_p is not None and callee_p.module.name == "monkeytype.stubs" and callee_p.fq not in seen_p:
-                todo_p.append(callee_p)
+    producers = _runtime_name_producers(repo)
     ctx.floor("R-C16.3", "modules providing names to generated runtime code (build_module_stubs)", len(producers), 1)
     mods = ["typing", "mypy_extensions", "pkg.shapes", "typing_extra", "collections"] + sorted(producers)
     items = [item(m, "X") for m in dict.fromkeys(mods)]
